@@ -18,8 +18,7 @@ def gen_world(rng, i, tier):
     read = w["read"]
     if rng.chance(0.08):
         # single file through econf_readFileWithCallback
-        w["read"] = {"ep": "readFile", "path": "$ROOT/single/one.conf", "delim": "=", "comment": "#", "opts": {}}
-        w["nodes"] = [{"p": "$ROOT/single/one.conf", "t": "f", "entries": gen.file_entries(rng, 1)}]
+        gen.single_file_world(rng, w)
     elif read["ep"] == "readDirs" and rng.chance(0.5):
         read["ep"] = "readDirsHistory"
     w["init"] = rng.pick(["null", "sentinel"])
@@ -66,7 +65,7 @@ def veto_sets(world, model):
 
 def one_plan(world, cb, init):
     read = world["read"]
-    ops = gen.prologue_ops(read) if read["ep"] != "readFile" else []
+    ops = gen.prologue_ops(read)
     ops += gen.layered_read_ops(read, cb=with_nested(world, cb), init=init)
     if cb:
         # nothing of the refused call may survive into the next one: the same read again, everything accepted
